@@ -112,6 +112,9 @@ where
     if weighted {
         graph.ensure_weighted()?;
     }
+    if let Some(t) = &target {
+        graph.get_node_index(t)?;
+    }
 
     let parallel =
         graph.number_of_nodes() > SERIAL_TO_PARALLEL_THRESHOLD && rayon::current_num_threads() > 1;
